@@ -163,6 +163,18 @@ def configurations(version, met, a, b):
     return out
 
 
+def task4_table(x):
+    from . import mono4
+
+    return mono4.task_table(x)
+
+
+def task4_fork(digits, step_list, d4s=None):
+    from . import mono4
+
+    return mono4.task_fork(digits, step_list, d4s)
+
+
 def main():
     chk = Check("C14")
     tasks = []
@@ -178,13 +190,11 @@ def main():
                     restricted.add("%s:%s->%s" % (met, a, b))
     from . import mono4
 
-    tasks4 = mono4.tasks()
-    results = C.run_named_tasks("harness.mono", tasks)
+    # one pool for all versions (the v4 product runs are the longest tasks: they start first)
+    tasks4 = [("task4_" + name[5:], args) for name, args in mono4.tasks()]
+    results = C.run_named_tasks("harness.mono", tasks4 + tasks)
     for r in results:
         chk.absorb_dict(r)
-    if tasks4:
-        for r in C.run_named_tasks("harness.mono4", tasks4):
-            chk.absorb_dict(r)
     chk.input_model = ("M-ASSIGN in pair mode: per metric step (adjacent values in the standard's severity order) one run of the real constructor in which the stepped field is a pair leaf and all other metrics are solver variables; "
                        "v2: 20 steps (base, temporal); v3.0 / v3.1: 41 steps each (v3.0 environmental score exempt for impact and requirement metrics, as the property says); v4: see mono4")
     chk.bounds = ["v2: environmental metrics absent (only base and temporal scores are in the property)",
